@@ -24,7 +24,16 @@ def run(ctx, proof):
     if proof["ok"]:
         corr, cfail = common.check_case_files(ctx, data["files"], "parse (Model/Lexer.v + LR driver over Gen/GenGrammar.v + semantic actions) vs Parser.parse",
                                               describe=lambda i, a: descr[i])
+    extra = {"failures_seen_for_other_properties": data.get("other_property_failures", [])}
+    if proof["ok"] and data.get("surf_files"):
+        # not a comparison: how many accepted renderings are instances of the layout theorem (every hypothesis evaluated in Coq)
+        c3, f3 = common.check_case_files(ctx, data["surf_files"], "instances of C10_layout_irrelevance", describe=lambda i, a: i)
+        broken = [f for f in f3 if "did not evaluate" in f["what"]]
+        cfail += broken
+        extra["renderings_that_are_instances_of_C10_layout_irrelevance"] = c3["cases"] - (len(f3) - len(broken))
+        extra["renderings_in_the_surface_family_by_shape"] = c3["cases"]
+        extra["accepted_renderings"] = data["distribution"].get("accepted_renderings")
     return {"corr": [corr], "corr_failures": cfail, "oracle_failures": data["oracle_failures"],
             "evaluations": data["evaluations"], "distinct_nontrivial": data["distinct_nontrivial"],
             "rule": RULE, "samples": data["samples"], "distribution": data["distribution"],
-            "extra": {"failures_seen_for_other_properties": data.get("other_property_failures", [])}}
+            "extra": extra}
